@@ -62,7 +62,7 @@ def cases(draw, tier="quick"):
     nodes = []
     recs = []
     for i in range(n):
-        k = draw(st.sampled_from(["tail", "tail", "tail", "block", "blocks", "dup", "prefix", "leaddup", "zeromix", "taildup", "rep", "reprev"]))
+        k = draw(st.sampled_from(["tail", "tail", "tail", "block", "blocks", "dup", "prefix", "leaddup", "zeromix", "taildup", "rep", "reprev", "sharedlead", "sharedlead"]))
         seed = 1000 + i
         if k == "tail":          # equal-length distinct tails
             rec = ("rand", seed, 0, draw(st.sampled_from(tail_lens)))
@@ -86,6 +86,11 @@ def cases(draw, tier="quick"):
         elif k == "reprev" and recs and recs[-1][0] != "lit":   # the file directly before, repeated / extended
             base = recs[-1]
             rec = ("rep", base[1] if base[0] == "rep" else draw(st.integers(1, 3)), base[2] + draw(st.integers(0, 2)), draw(st.sampled_from([0, 0] + tail_lens)))
+        elif k == "sharedlead" and recs:
+            # first block(s) identical to another file's, the following block its own: with colliding checksums only the bytes
+            # behind the common start tell the two runs apart
+            base = draw(st.sampled_from(recs))
+            rec = ("cat", base[1] if base[0] in ("rand", "cat") else seed, draw(st.integers(1, 2)), B * draw(st.integers(1, 2)) + draw(st.sampled_from([0] + tail_lens)), seed)
         elif k == "zeromix":
             rec = ("mix", seed, draw(st.integers(2, 4)), draw(st.sampled_from([0] + tail_lens)), draw(st.sampled_from([[1, 0], [0, 1, 1], [1, 0, 0, 1]])))
         else:
